@@ -70,6 +70,10 @@ def run(ck: Checker):
         from .common import WORKER
 
         check_outcome_unpack(ck, 'C04-10')  # ... and the worker loop is not ended by taking an exception outcome apart
+        from .c04 import check_wrap_arguments
+
+        for q_ in ('Worker._start_single', 'Worker._start_single.get_input', 'Worker._start_batch', 'Worker._build_input_batches'):
+            check_wrap_arguments(ck, 'C04-2', ck.repo.func(WORKER, q_))  # ... nor by wrapping a wrapper
         # the batch consumer cannot be killed by an expired deadline (negative timeout) -- its requests would never be answered
         check_deadline_shape(ck, 'C09-4', ck.repo.func(WORKER, 'Worker._get_input_batch'), queue=BUF, wait_attr='self.batch_wait_time', size_attr='self.batch_size')
         c09.check_queue_locks(ck, 'C09-7')
